@@ -73,6 +73,14 @@ func c12a(c *Ctx) {
 			continue
 		}
 		used := map[ssa.Value]bool{}
+		type selAlt struct {
+			key  string
+			must []string
+		}
+		// the alternatives of each result, over all successful returns (the two selections may be
+		// merged into one return or be two returns)
+		altsOf := map[int][]selAlt{}
+		posOf := map[int]string{}
 		for _, r := range returnsOf(fn) {
 			if !c.isSuccessRet(fn, r) {
 				continue
@@ -109,10 +117,6 @@ func c12a(c *Ctx) {
 				pos := c.W.Pos(r.Pos())
 				// the alternatives of the selection: a merge of two lookups, or one lookup under a
 				// key that was chosen between the value and "_"
-				type selAlt struct {
-					key  string
-					must []string
-				}
 				var alts []selAlt
 				if len(memAlts) > 0 {
 					for _, ma := range memAlts {
@@ -136,7 +140,34 @@ func c12a(c *Ctx) {
 					}
 				}
 				if len(alts) == 0 {
-					c.Bad(key, pos, "the selected value is "+pretty(c.term(fn, res))+": a single lookup without the '_' fallback (or without the presence test)")
+					// one lookup under a fixed key: an alternative of its own, guarded by the way to this return
+					lv := res
+					if ex, isEx := lv.(*ssa.Extract); isEx {
+						lv = ex.Tuple
+					}
+					if lk, isLk := lv.(*ssa.Lookup); isLk {
+						alts = append(alts, selAlt{c.term(fn, lk.Index), c.mustLits(fn, r.Block())})
+					}
+				}
+				_ = key
+				altsOf[ri] = append(altsOf[ri], alts...)
+				if posOf[ri] == "" {
+					posOf[ri] = pos
+				}
+			}
+		}
+		var ris []int
+		for ri := range altsOf {
+			ris = append(ris, ri)
+		}
+		sort.Ints(ris)
+		for _, ri := range ris {
+			{
+				alts := altsOf[ri]
+				key := fmt.Sprintf("%s/result#%d", short, ri)
+				pos := posOf[ri]
+				if len(alts) == 0 {
+					c.Bad(key, pos, "no selection from the case map is returned for this result")
 					continue
 				}
 				sawValue, sawFallback := false, false
@@ -983,6 +1014,31 @@ func c14d(c *Ctx) {
 				}
 			}
 		})
+		// ... once: from one append of a token read from the window no other such append is reached
+		// before the window has moved on (the repetition loop of `step * n` is C14.a's business)
+		var winAppends []*ssa.Call
+		instrs(fn, func(in ssa.Instruction) {
+			ap, ok := in.(*ssa.Call)
+			if !ok || calleeName(ap) != "builtin:append" || len(ap.Call.Args) < 2 || loopHeaders(fn)[ap.Block()] != head {
+				return
+			}
+			es := varargElems(ap.Call.Args[1])
+			if len(es) == 1 && strings.HasPrefix(c.term(fn, es[0]), "$0.curToken") {
+				winAppends = append(winAppends, ap)
+			}
+		})
+		isWinAppend := func(in ssa.Instruction) bool {
+			for _, a := range winAppends {
+				if in == ssa.Instruction(a) {
+					return true
+				}
+			}
+			return false
+		}
+		for i, ap := range winAppends {
+			_, twice := existsPath(pathQuery{from: after(ap), avoid: isAdvance, target: isWinAppend})
+			c.Check(!twice, fmt.Sprintf("%s/appended-once#%d", fn.Name(), i), c.W.Pos(ap.Pos()), "a token is appended once before the next one is read", "after a token was appended another append of the current token is reachable without the parser having advanced: the item would be listed twice")
+		}
 		c.Check(okIdent, fn.Name()+"/ident-appended", c.W.Pos(acc.Pos()), "an identifier token is appended to the list", "identifier tokens are not appended to the list")
 	}
 }
